@@ -165,6 +165,11 @@ fn run_program(line: &str) -> String {
                     if let Some(c) = c { w.lock().unwrap().handles.insert(n(2), c); }
                 }
                 "dr" => { let s = w.lock().unwrap().handles.remove(&n(2)); drop(s); }
+                "drp" => {
+                    // the handle is dropped while its thread is unwinding (a local of a frame a caught panic unwinds through)
+                    let s = w.lock().unwrap().handles.remove(&n(2));
+                    let _ = std::panic::catch_unwind(std::panic::AssertUnwindSafe(move || { let _held = s; std::panic::resume_unwind(Box::new("scripted")); }));
+                }
                 "en" => {
                     let s = w.lock().unwrap().handles.remove(&n(2));
                     if let Some(s) = s { let g = s.entered(); GUARDS.with(|m| m.borrow_mut().insert(n(3), g)); }
